@@ -17,6 +17,7 @@ import (
 
 	"github.com/glowlabs-org/gca-backend/client"
 	"github.com/glowlabs-org/gca-backend/glow"
+	"github.com/glowlabs-org/gca-backend/server"
 )
 
 type tcpProxy struct {
@@ -183,6 +184,16 @@ func runRelayScenario(seed uint64, size int, t *Trace) error {
 		last := round == 0 // decided below: the final round is the fault-free one
 		_ = last
 	}
+	if r.Chance(40) && s.E.S != nil {
+		// servers the GCA has banned are on record: the reply lists them (the device must learn of the ban)
+		for k, n := 0, 1+r.Intn(2); k < n; k++ {
+			as := server.AuthorizedServer{PublicKey: detKey(seed, 40+k).Pub, Banned: true, Location: []string{myIP, myIP, ""}[r.Intn(3)],
+				HttpPort: closedPortOnce(), TcpPort: 1, UdpPort: 2}
+			as.GCAAuthorization = glow.Sign(as.SigningBytes(), s.E.GCA.Priv)
+			s.AuthServer(as)
+		}
+		t.Count("relay.banned-servers-on-record")
+	}
 	failing := r.Intn(3)
 	for round := 0; round <= failing; round++ {
 		final := round == failing
@@ -231,8 +242,13 @@ func runRelayScenario(seed uint64, size int, t *Trace) error {
 		}
 		after := c.VerifState()
 		t.Count("relay.round:" + res)
-		t.Line("cl.round latest=%d now=%d choices=%s => %s lockfree=%d sigs=true gk=%s id=%d servers=%s disk=[%s] resent=%s", latest, t0, strings.Join(choices, ";"),
-			res, lf, hx(after.GCAPubKey[:]), after.ShortID, canonClientServers(after.Servers), canonClientDisk(dir), strings.Join(resent, ","))
+		t.Line("cl.round latest=%d now=%d choices=%s => %s lockfree=%d sigs=true gk=%s id=%d servers=%s disk=[%s] resent=%s primary=%s", latest, t0, strings.Join(choices, ";"),
+			res, lf, hx(after.GCAPubKey[:]), after.ShortID, canonClientServers(after.Servers), canonClientDisk(dir), strings.Join(resent, ","), hx(after.PrimaryServer[:]))
+		if final && !ok {
+			// nothing stood between the real client and the real server in this round: the reply of a correct
+			// server is one a correct client accepts, so recovery cannot fail here
+			t.Line("c08.check what=sync-round-over-a-fault-free-path => VIOLATION:the client did not accept the reply of the server (%d connections, reply of %d bytes)", conns, len(reply))
+		}
 		if !final || !ok {
 			continue
 		}
